@@ -60,7 +60,7 @@ def NumOk (n : Token) (q : Dec) : Prop :=
 theorem amount_number_only_ok (n x : Token) (rest : List Token) (errs : List ParseError) (dy : Int) (q : Dec)
     (h3 : n.ty = .number) (hx : x.ty ≠ .commodity) (hx' : x.ty ≠ .text) (hq : NumOk num n q) :
     parseAmount (listEnv num cls) ⟨x :: rest, n, errs, dy⟩ =
-      (some ⟨q, n.val, emptyCommodity, false, ⟨n.pos, x.pos⟩⟩, ⟨x :: rest, n, errs, dy⟩ |> advance (listEnv num cls)) := by
+      (some ⟨q, n.val, emptyCommodity, false, ⟨n.pos, n.stop⟩⟩, ⟨x :: rest, n, errs, dy⟩ |> advance (listEnv num cls)) := by
   unfold parseAmount amountLeadSign amountLeftCommodity amountSecondSign amountNumber amountRightCommodity
   simp only [h3, advance_list, reduceCtorEq, if_false, ne_eq, not_true_eq_false, false_and, listEnv_num,
     hq.1, hq.2, emptyCommodity, if_true, hx, hx', false_or, toRange]
@@ -69,7 +69,7 @@ theorem amount_number_only_ok (n x : Token) (rest : List Token) (errs : List Par
 theorem amount_number_commodity_ok (n com x : Token) (rest : List Token) (errs : List ParseError) (dy : Int)
     (q : Dec) (h3 : n.ty = .number) (h4 : com.ty = .commodity) (hq : NumOk num n q) :
     parseAmount (listEnv num cls) ⟨com :: x :: rest, n, errs, dy⟩ =
-      (some ⟨q, n.val, ⟨com.val, .right, ⟨com.pos, com.stop⟩⟩, false, ⟨n.pos, x.pos⟩⟩, ⟨rest, x, errs, dy⟩) := by
+      (some ⟨q, n.val, ⟨com.val, .right, ⟨com.pos, com.stop⟩⟩, false, ⟨n.pos, com.stop⟩⟩, ⟨rest, x, errs, dy⟩) := by
   unfold parseAmount amountLeadSign amountLeftCommodity amountSecondSign amountNumber amountRightCommodity
   simp only [h3, h4, advance_list, reduceCtorEq, if_false, ne_eq, not_true_eq_false, false_and, listEnv_num,
     hq.1, hq.2, emptyCommodity, if_true, true_or, toRange]
@@ -78,7 +78,7 @@ theorem amount_number_commodity_ok (n com x : Token) (rest : List Token) (errs :
 theorem amount_commodity_number_ok (com n x : Token) (rest : List Token) (errs : List ParseError) (dy : Int)
     (q : Dec) (h4 : com.ty = .commodity) (h3 : n.ty = .number) (hsym : com.val ≠ []) (hq : NumOk num n q) :
     parseAmount (listEnv num cls) ⟨n :: x :: rest, com, errs, dy⟩ =
-      (some ⟨q, n.val, ⟨com.val, .left, ⟨com.pos, com.stop⟩⟩, false, ⟨com.pos, x.pos⟩⟩, ⟨rest, x, errs, dy⟩) := by
+      (some ⟨q, n.val, ⟨com.val, .left, ⟨com.pos, com.stop⟩⟩, false, ⟨com.pos, n.stop⟩⟩, ⟨rest, x, errs, dy⟩) := by
   unfold parseAmount amountLeadSign amountLeftCommodity amountSecondSign amountNumber amountRightCommodity
   simp only [h3, h4, advance_list, reduceCtorEq, if_false, if_true, ne_eq, not_true_eq_false, false_and,
     listEnv_num, hq.1, hq.2, hsym, Bool.false_and, toRange]
@@ -91,7 +91,7 @@ theorem amount_sign_commodity_number_ok (sg com n x : Token) (rest : List Token)
     (hq : num.decOfString (num.normalize (dropBlanks (0x2D :: n.val))) = some q)
     (hexp : ¬ (q.exp > maxAmountExponent ∨ q.exp < -maxAmountExponent)) :
     parseAmount (listEnv num cls) ⟨com :: n :: x :: rest, sg, errs, dy⟩ =
-      (some ⟨q, 0x2D :: n.val, ⟨com.val, .left, ⟨com.pos, com.stop⟩⟩, true, ⟨sg.pos, x.pos⟩⟩,
+      (some ⟨q, 0x2D :: n.val, ⟨com.val, .left, ⟨com.pos, com.stop⟩⟩, true, ⟨sg.pos, n.stop⟩⟩,
        ⟨rest, x, errs, dy⟩) := by
   unfold parseAmount amountLeadSign amountLeftCommodity amountSecondSign amountNumber amountRightCommodity
   simp only [h1, h3, h4, hv, advance_list, reduceCtorEq, if_false, if_true, ne_eq, not_true_eq_false,
@@ -117,7 +117,7 @@ theorem posting_amount_ok (ind acc n com nl : Token) (rest : List Token) (errs :
     (h4 : com.ty = .commodity) (h5 : nl.ty = .newline) (hq : NumOk num n q) :
     parsePosting (listEnv num cls) ⟨acc :: n :: com :: nl :: rest, ind, errs, dy⟩ =
       (some ⟨.none, ⟨acc.val, ⟨acc.pos, acc.stop⟩⟩,
-             some ⟨q, n.val, ⟨com.val, .right, ⟨com.pos, com.stop⟩⟩, false, ⟨n.pos, nl.pos⟩⟩,
+             some ⟨q, n.val, ⟨com.val, .right, ⟨com.pos, com.stop⟩⟩, false, ⟨n.pos, com.stop⟩⟩,
              none, none, [], [], .none, ⟨acc.pos, nl.pos⟩⟩,
        ⟨rest, nl, errs, dy⟩) := by
   unfold parsePosting
